@@ -231,7 +231,14 @@ func runC19(cx *Ctx, r *Report) {
 		}
 		_, signers := cx.signerTermsOf(e)
 		val := ev.Args[1].LooseString()
-		ok := len(signers) == 1 && strings.Contains(val, "msg.Contents") && strings.Contains(val, "addr("+signers[0]+")") && strings.Contains(val, "TxBytes")
+		ok := false
+		if st := findSub(ev.Args[1], func(t *Term) bool { return t.Op == "struct" && t.Name == "Record" }); st != nil && len(signers) == 1 {
+			got := map[string]string{}
+			for i := 0; i+1 < len(st.Args); i += 2 {
+				got[st.Args[i].Name] = st.Args[i+1].LooseString()
+			}
+			ok = got["Contents"] == "msg.Contents" && got["Creator"] == signers[0] && strings.Contains(got["TxHash"], "TxBytes") && len(got) == 3
+		}
 		r.check(ok, "contents", e.Name, ev.Pos(cx), "stored value is built from the transaction bytes' hash, msg.Contents and the declared signer", "stored record is not built from tx hash, msg.Contents and the declared signer: "+val)
 	})
 	r.requireCount("contents", 1)
